@@ -89,7 +89,7 @@ THOROUGH = QUICK + [('hcp221', True), ('sc222', True), ('hcp211', False), ('sc12
 
 def sections(tier):
     S = run.Section
-    return [S('balance:%s:%s' % (c, 'ts' if ts else 'kra'), balance(c, ts), budget_s=170 if tier == 'quick' else 3000,
+    return [S('balance:%s:%s' % (c, 'ts' if ts else 'kra'), balance(c, ts), budget_s=170 if tier == 'quick' else 1200,
               replayer='balance', config=c, maxpaths=5000, timeout_ms=10000) for c, ts in (QUICK if tier == 'quick' else THOROUGH)]
 
 
